@@ -214,6 +214,10 @@ func (h *avsH) monResults() {
 		r := &recs[i]
 		k := rkey(r.OperatorAddress, r.TaskContractAddress, r.TaskId)
 		tag := " [" + k + " stage " + r.Stage + "]"
+		if seen[k] {
+			// "only once": one operator has one result per task, whatever the task contract is called in it
+			bad("result-duplicate", "more than one result is stored for one operator and one task (stored under "+r.TaskContractAddress+")"+tag)
+		}
 		seen[k] = true
 		s1, ok := h.acc1[k]
 		if !ok {
